@@ -17,7 +17,51 @@ EXPLANATION = (
 NOT_DECIDED = "byte-for-byte delivery at run time; packet framing inside packeting.Packet.parse"
 
 
+_MUTATORS = {"extend", "append", "clear", "pop", "insert", "remove", "reverse", "sort", "__setitem__", "__delitem__", "__iadd__"}
+
+
+def tx_no_mutation(ctx, rule):
+    """T4-txcopy: the tcp transmit path never mutates, in place, bytes it was handed by its caller.  The stacks hand the
+    live `pkt.packed` bytearray (and the same Packet may be queued more than once); a partial send must re-queue a *copy* of
+    the unsent tail (data[count:]), not trim the caller's object."""
+    n = 0
+    for modn, cn in (("aio.tcp.clienting", "Client"), ("aio.tcp.serving", "Incomer"), ("aio.tcp.clienting", "ClientTls"), ("aio.tcp.serving", "IncomerTls")):
+        C = ctx.cls(modn, cn)
+        for mn in ("tx", "serviceTxes", "send"):
+            f = C.methods.get(mn)
+            if f is None:
+                continue
+            ctx.use(f)
+            handed = {a.arg for a in f.args.args[1:]}
+            for a in ast.walk(f):
+                if isinstance(a, ast.Assign) and isinstance(a.value, ast.Call) and (call_name(a.value) or "").endswith("txes.popleft"):
+                    handed |= {t.id for t in a.targets if isinstance(t, ast.Name)}
+            if not handed:
+                continue
+            n += 1
+            bad = []
+            for x in ast.walk(f):
+                if isinstance(x, ast.Delete):
+                    bad += [t for t in x.targets if isinstance(t, ast.Subscript) and isinstance(t.value, ast.Name) and t.value.id in handed]
+                elif isinstance(x, ast.Subscript) and isinstance(x.ctx, ast.Store) and isinstance(x.value, ast.Name) and x.value.id in handed:
+                    bad.append(x)
+                elif isinstance(x, ast.AugAssign) and isinstance(x.target, ast.Name) and x.target.id in handed:
+                    bad.append(x)       # += on a bytearray extends the caller's object
+                elif isinstance(x, ast.Call) and isinstance(x.func, ast.Attribute) and x.func.attr in _MUTATORS and \
+                        isinstance(x.func.value, ast.Name) and x.func.value.id in handed:
+                    bad.append(x)
+            for b in bad:
+                ctx.bad(rule, b, "%s.%s mutates handed-over bytes in place: %s" % (cn, mn, src(b)),
+                        "the stacks pass pkt.packed by reference and may queue the same packet twice (broadcast, resend): trimming or "
+                        "extending it here corrupts the bytes of every other queue entry that aliases it")
+            if not bad:
+                ctx.ok(rule, f, "%s.%s only reads/slices the bytes it was handed (%s)" % (cn, mn, ", ".join(sorted(handed))))
+    ctx.floor(rule + ":functions", n, 6)
+
+
 def check(ctx):
+    ctx.rule("T4-txcopy", "tcp tx/serviceTxes/send never mutate handed-over bytes in place; a partial send re-queues a copy of the tail")
+    tx_no_mutation(ctx, "T4-txcopy")
     ctx.rule("D-scope", "D1/D3/D4/D5/D6 over scope(TcpServerStack.serviceAll, TcpClientStack.serviceAll)")
     ctx.rule("T9-txbs", "client stream stack transmit buffer discipline")
     ctx.rule("T9-rx", "receive: del rxbs[:packet.size] only for a parsed packet; append in order")
